@@ -60,11 +60,14 @@ pub struct CertSpec {
     /// another identity's complete Ed25519 SubjectPublicKeyInfo planted in the serial number
     /// (before the real SPKI) and in a private extension (after it)
     pub decoy: Option<[u8; 32]>,
+    /// the subject's common name (None: the certificate generator's default); names live in the
+    /// subjectAltName extension, whatever the subject says
+    pub subject_cn: Option<String>,
 }
 
 impl CertSpec {
     pub fn plain(subject_seed: [u8; 32], signer_seed: Option<[u8; 32]>, names: Vec<String>) -> Self {
-        Self { subject_seed, signer_seed, names, validity: Validity::Ok, p256: false, san_kind: "dns", decoy: None }
+        Self { subject_seed, signer_seed, names, validity: Validity::Ok, p256: false, san_kind: "dns", decoy: None, subject_cn: None }
     }
 }
 
@@ -93,6 +96,11 @@ pub fn mint(spec: &CertSpec) -> Minted {
             params.custom_extensions.push(rcgen::CustomExtension::from_oid_content(&[2, 5, 29, 17], content));
         }
         _ => {}
+    }
+    if let Some(cn) = &spec.subject_cn {
+        let mut dn = rcgen::DistinguishedName::new();
+        dn.push(rcgen::DnType::CommonName, cn.clone());
+        params.distinguished_name = dn;
     }
     if let Some(victim) = spec.decoy {
         let spki = ed25519_spki(&crate::sim::peer_id_of(&victim).0);
